@@ -58,7 +58,14 @@ World *build_hostile_srv(const J &plan);
 J gen_hostile_cli(uint64_t seed, const J &ov);
 World *build_hostile_cli(const J &plan);
 
+static J gen_plan_inner(const std::string &scen, uint64_t seed, const J &ov);
 J gen_plan(const std::string &scen, uint64_t seed, const J &ov)
+{
+	J p = gen_plan_inner(scen, seed, ov);
+	if (ov.getb("pair")) p.set("pair_residue", (int)(1 + splitmix64(seed ^ 0x51ed) % 4));
+	return p;
+}
+static J gen_plan_inner(const std::string &scen, uint64_t seed, const J &ov)
 {
 	if (scen == "tunnel") return gen_tunnel(seed, ov);
 	if (scen == "hostile_srv") return gen_hostile_srv(seed, ov);
@@ -197,6 +204,34 @@ static std::string run_child(const J &plan, int verbose, const char *trace_path,
 	return r.dump();
 }
 
+// C12: run the same plan twice, differing only in what the receive buffers hold beyond each
+// datagram; any difference in observable behaviour (fingerprint or abnormal end) is a violation.
+static std::string run_maybe_pair(const J &plan, int verbose, const char *trace_path, int watchdog_s, const std::string &sanlog_dir)
+{
+	if (!plan.has("pair_residue")) return run_child(plan, verbose, trace_path, watchdog_s, sanlog_dir);
+	J pa = plan, pb = plan;
+	pa.set("residue_override", 0);
+	pb.set("residue_override", (int)plan.geti("pair_residue"));
+	std::string sa = run_child(pa, verbose, trace_path, watchdog_s, sanlog_dir);
+	std::string tb = trace_path ? std::string(trace_path) + ".b" : std::string();
+	std::string sb = run_child(pb, verbose, trace_path ? tb.c_str() : nullptr, watchdog_s, sanlog_dir);
+	J ra, rb;
+	if (!J::parse(sa, ra) || !J::parse(sb, rb)) return sa;
+	bool ca = ra.has("crash"), cb = rb.has("crash");
+	std::string fa = ra.gets("fp"), fb = rb.gets("fp");
+	ra.set("pair", true);
+	if (ca != cb || (!ca && fa != fb) || (ca && ra.gets("what") != rb.gets("what"))) {
+		J v = ra.has("viol") ? ra["viol"] : J::arr();
+		J o = J::obj(); o.set("p", "C12");
+		o.set("clause", ca != cb ? "residue.crash_differs" : "residue.behaviour_differs");
+		o.set("detail", "same plan, receive-buffer residue 0 vs " + std::to_string(plan.geti("pair_residue")) + ": " + (ca ? "crash " + ra.gets("what") : "fp " + fa) + " vs " + (cb ? "crash " + rb.gets("what") : "fp " + fb));
+		v.push(o);
+		ra.set("viol", v);
+		if (ca && !cb) { ra.set("fp", fb); }
+	}
+	return ra.dump();
+}
+
 static J apply_sets(const std::vector<std::string> &sets)
 {
 	J ov = J::obj();
@@ -243,7 +278,7 @@ int main(int argc, char **argv)
 		J plan = gen_plan(scen, (uint64_t)seed, ov);
 		if (!planout.empty()) { std::ofstream f(planout); f << plan.dump() << "\n"; }
 		if (nofork) { J r = run_plan(plan, verbose, trace.empty() ? nullptr : trace.c_str()); printf("%s\n", r.dump().c_str()); return 0; }
-		std::string r = run_child(plan, verbose, trace.empty() ? nullptr : trace.c_str(), watchdog, sanlog);
+		std::string r = run_maybe_pair(plan, verbose, trace.empty() ? nullptr : trace.c_str(), watchdog, sanlog);
 		printf("%s\n", r.c_str());
 		return 0;
 	}
@@ -252,7 +287,7 @@ int main(int argc, char **argv)
 		if (!J::parse(read_file(file), plan) || plan.k != J::OBJ) { fprintf(stderr, "cannot parse %s\n", file.c_str()); return 2; }
 		for (auto &p : ov.o) plan.set(p.first, p.second);
 		if (nofork) { J r = run_plan(plan, verbose, trace.empty() ? nullptr : trace.c_str()); printf("%s\n", r.dump().c_str()); return 0; }
-		std::string r = run_child(plan, verbose, trace.empty() ? nullptr : trace.c_str(), watchdog, sanlog);
+		std::string r = run_maybe_pair(plan, verbose, trace.empty() ? nullptr : trace.c_str(), watchdog, sanlog);
 		printf("%s\n", r.c_str());
 		return 0;
 	}
@@ -260,7 +295,7 @@ int main(int argc, char **argv)
 		for (long long i = 0; i < count; i++) {
 			long long s = from + i * stride;
 			J plan = gen_plan(scen, (uint64_t)s, ov);
-			std::string r = run_child(plan, 0, nullptr, watchdog, sanlog);
+			std::string r = run_maybe_pair(plan, 0, nullptr, watchdog, sanlog);
 			fputs(r.c_str(), stdout); fputc('\n', stdout); fflush(stdout);
 		}
 		return 0;
